@@ -11,7 +11,7 @@ use crate::world::{Cfg, Kind, Session, Tr};
 use serde_json::{Value, json};
 use std::collections::{BTreeMap, BTreeSet};
 
-pub const WISO: &str = "id: wiso\noutputs:\n  who:\n  seen:\nsteps:\n  - id: s1\n    acts:\n      - uses: acts.transform.code\n        params: \"$env.who = pid; return { who: pid + '-v' };\"\n      - uses: acts.core.irq\n        key: a1\n      - uses: acts.transform.code\n        params: \"return { seen: $env.who };\"\n  - id: s2\n    acts:\n      - uses: acts.core.irq\n        key: a2\n";
+pub const WISO: &str = "id: wiso\ninputs:\n  who: \"\"\n  seen: \"\"\noutputs:\n  who:\n  seen:\nsteps:\n  - id: s1\n    acts:\n      - uses: acts.transform.code\n        params: \"$env.who = pid; return { who: pid + '-v' };\"\n      - uses: acts.core.irq\n        key: a1\n      - uses: acts.transform.code\n        params: \"return { seen: $env.who };\"\n  - id: s2\n    acts:\n      - uses: acts.core.irq\n        key: a2\n";
 
 fn mid_of(yml: &str) -> String {
     yml.lines().next().unwrap().trim_start_matches("id:").trim().to_string()
@@ -46,6 +46,16 @@ pub fn scenarios(tier: Tier) -> Vec<Scn> {
                 });
             }
         }
+    }
+    // the script workflow first (the default schedule runs the first process first)
+    for (nb, mb) in [("w1", W1), ("w2", W2)] {
+        v.push(Scn {
+            id: format!("pair/wiso+{nb}/complete/d2"),
+            procs: vec![(WISO, "complete"), (mb, "complete")],
+            bound: 2,
+            evictions: 1,
+            cache_cap: None,
+        });
     }
     if !q {
         v.push(Scn {
